@@ -89,7 +89,8 @@ def coq_check_gen(cases, tag, checker="check_gen_window", timeout=3000):
         if not m:
             raise BuildError("cannot parse coq output: " + out[-300:])
         return int(m.group(1))
-    with ThreadPoolExecutor(max_workers=NCPU) as ex:
+    from common import workers_for_memory
+    with ThreadPoolExecutor(max_workers=workers_for_memory()) as ex:
         res = list(ex.map(run, enumerate(cases)))
     for c, r in zip(cases, res):
         c.result = r
